@@ -6,7 +6,7 @@ functions, predicates) is supplied by the harness, returns an uninterpreted term
 """
 import copy
 
-from .codec import Pred, UserRaise, dec, strict_eq, tokens_to_str
+from .codec import Pred, UserRaise, dec, force, strict_eq, tokens_to_str
 
 
 class Built:
@@ -34,12 +34,14 @@ class Built:
                 return True
         return False
 
-    def fn(self, kind, name, arity=None):
+    def fn(self, kind, name, owner=0):
         log = self.log
         me = self
 
         def call(*args):
-            log.append((kind, name, args))
+            # like a real body, the callable consumes lazy iterables it is given
+            args = tuple(force(a) for a in args)
+            log.append((kind, name, args, owner))
             if me._raises(name, args):
                 raise UserRaise(name)
             return ("T", name, tuple(args))
@@ -47,9 +49,9 @@ class Built:
         call.__name__ = "%s_%s" % (kind, name)
         return call
 
-    def body(self, name, nargs):
+    def body(self, name, nargs, owner=0):
         """A function with `nargs` named parameters (dataset definitions need a signature)."""
-        inner = self.fn("body", name)
+        inner = self.fn("body", name, owner)
         if nargs == 0:
             def f():
                 return inner()
@@ -107,7 +109,7 @@ class Built:
             log = self.log
 
             def bindfn(x, _t=table, _o=other, _i=i):
-                log.append(("bindfn", _i, (x,)))
+                log.append(("bindfn", _i, (x,), _i))
                 for v, tgt in _t:
                     if strict_eq(v, x):
                         return tgt
@@ -158,6 +160,11 @@ class Built:
             return FunctionApplication(self.fn("body", nd["f"]), *[O[a] for a in nd["args"]])
         if k == "ds":
             return self._dataset(i, nd)
+        if k == "dsof":
+            q2 = dec(nd["q2"])
+            self.presets[i] = {"q2": q2}
+            base = O[nd["base"]]
+            return base.with_options(q2) if nd["mode"] == "force" else base.with_default_options(q2)
         raise ValueError("unknown node kind %r" % k)
 
     def _dataset(self, i, nd):
@@ -173,15 +180,15 @@ class Built:
         if dd:
             kw["default_options"] = dd
         if nd["cb"]:
-            kw["callback"] = self.fn("callback", nd["cb"])
+            kw["callback"] = self.fn("callback", nd["cb"], i)
         if nd["effs"]:
-            kw["effects"] = [self.fn("effect", e) for e in nd["effs"]]
+            kw["effects"] = [self.fn("effect", e, i) for e in nd["effs"]]
         if nd.get("cache") == "none":
             kw["cache"] = __import__("labrea.cache", fromlist=["NoCache"]).NoCache()
         if nd["dflt"]:
             dn = self.nodes[nd["dflt"] - 1]
             if dn["k"] == "fnapp":
-                f = self.body(dn["f"], len(dn["args"]))
+                f = self.body(dn["f"], len(dn["args"]), i)
                 kw["defaults"] = {"a%d" % j: O[a] for j, a in enumerate(dn["args"])}
                 ds = L.dataset(f, **kw)
             else:
